@@ -215,3 +215,28 @@ def atomic_write_json(path, obj):
     with open(tmp, "w") as f:
         json.dump(obj, f, indent=1, sort_keys=True, default=repr)
     os.replace(tmp, path)
+
+
+def run_machine(col, name, make_machine, max_examples, seed, step_count=20, shrink=True, rounds=3):
+    """Run a Hypothesis RuleBasedStateMachine.  `make_machine(holder)` returns the machine class;
+    machines put their recorded plain-data steps into holder["steps"]/holder["config"] as they go so that
+    the minimal failing history (Hypothesis replays it last) can be stored as a replay file."""
+    import hypothesis
+    from hypothesis import HealthCheck, Phase, settings
+    from hypothesis.stateful import run_state_machine_as_test
+
+    phases = [Phase.generate] + ([Phase.shrink] if shrink else [])
+    st = settings(max_examples=max_examples, stateful_step_count=step_count, database=None, deadline=None, derandomize=False,
+                  report_multiple_bugs=False, phases=phases, print_blob=False, suppress_health_check=list(HealthCheck))
+    for rnd in range(rounds):
+        holder = {"ignore": col.ignore_keys}
+        cls = hypothesis.seed(seed + rnd)(make_machine(holder))
+        try:
+            run_state_machine_as_test(cls, settings=st)
+            return
+        except Violation as v:
+            if v.key in col.ignore_keys:
+                continue
+            col.record_failure(v.key, v.detail, {"check": name, "config": holder.get("config"), "steps": holder.get("steps")})
+        except hypothesis.errors.Flaky as e:
+            raise HarnessError("flaky machine %s: %r" % (name, e))
